@@ -36,10 +36,8 @@ fn('dsplib::CztPlanImpl::solve', CZ, serves=['C01', 'C05', 'C09'], pure=True, ex
 fn('dsplib::IfftPlan::IfftPlan', 'lib/fft/ifft.cpp', key='IfftPlan::IfftPlan', serves=['C02', 'C01', 'C05'], assigns=['this'], may_throw=True, extra_env=ENV,
    requires=[('size', 'And(n >= 1, n <= 1073741824)')])
 import z3 as _z3
-EPSD = _z3.Function('eps_at', _z3.RealSort(), _z3.RealSort())
+from contracts.adaptive import EPSD
 ENV['EPSD'] = EPSD
-fn('dsplib::eps', 'lib/types.cpp', sig='double (double)', key='eps(double)', serves=['C01'], trusted=True, pure=True, extra_env=ENV,
-   value='EPSD(v)', ensures=[('positive', 'result > 0')], notes='spacing of doubles at v: a positive function of v (EPSD)')
 
 CH = lambda k: ('COS(%s * %s)' % (WA, HALFSQ(k)), 'SIN(%s * %s)' % (WA, HALFSQ(k)))
 TNEAR1 = 'SQRT((a.re - 1) * (a.re - 1) + a.im * a.im) > EPSD(a.re)'
